@@ -12,6 +12,8 @@ PROGRAMS = [
     "add_row_bcast", "add_col_bcast", "transpose_matmul", "matmul_shared", "matmul_three_syms", "two_inputs_same_syms",
     "outer_two_syms", "swap_reshape", "slice_to_dim_minus1", "eye_like_dim", "where_iota_lt_dim", "cumsum_axis0",
     "stack_and_reshape", "broadcast_to_dims", "dim_diff", "squeeze_unsqueeze",
+    "floordiv_both_orders", "mod_both_orders", "dim_square_plus_twice", "dim_poly_mix", "reshape_swap_elementwise",
+    "reshape_swap_reduce", "sub_both_orders", "three_dims_mix",
 ]
 
 
@@ -93,6 +95,23 @@ def build(name: str):
         return (lambda x: x + (x.shape[0] - x.shape[1])), [BN]
     if name == "squeeze_unsqueeze":
         return (lambda x: jnp.squeeze(x[:, :, None], axis=2) + jnp.expand_dims(x, 0)[0]), [BN]
+    if name == "floordiv_both_orders":
+        return (lambda x: x * (x.shape[0] // x.shape[1]) + (x.shape[1] // x.shape[0])), [BN]
+    if name == "mod_both_orders":
+        return (lambda x: x * (x.shape[0] % x.shape[1]) + (x.shape[1] % x.shape[0])), [BN]
+    if name == "dim_square_plus_twice":
+        return (lambda x: x * (x.shape[0] * x.shape[0]) + 2 * x.shape[0]), [BN]
+    if name == "dim_poly_mix":
+        return (lambda x: x + (3 * x.shape[0] + x.shape[0] * x.shape[1] + x.shape[1] * x.shape[1] + 2 * x.shape[1])), [BN]
+    if name == "reshape_swap_elementwise":
+        return (lambda x: jnp.reshape(jnp.tanh(jnp.reshape(x, (x.shape[0] * x.shape[1],)) * 0.0) + jnp.reshape(x, (x.shape[0] * x.shape[1],)),
+                                      (x.shape[1], x.shape[0]))), [BN]
+    if name == "reshape_swap_reduce":
+        return (lambda x: jnp.sum(jnp.reshape(jnp.maximum(jnp.reshape(x, (-1,)), -1.0), (x.shape[1], x.shape[0])), axis=0)), [BN]
+    if name == "sub_both_orders":
+        return (lambda x: x * (x.shape[0] - x.shape[1]) + (x.shape[1] - x.shape[0]) * 2), [BN]
+    if name == "three_dims_mix":
+        return (lambda a, b: a @ b + (a.shape[0] * 100 + a.shape[1] * 10 + b.shape[1])), [BN, ("N", "M")]
     raise ValueError(name)
 
 
